@@ -307,7 +307,9 @@ func vfC29Scenario(x *venum.X, chosen []string) {
 						w.w[0].DrainHandle().ClearDrain()
 						clearEnd = w.now()
 					case "drain-open":
-						drainStart = w.now()
+						if t := w.now(); drainStart < 0 {
+							drainStart = t // the FIRST Drain call: a ClearDrain must have returned before it
+						}
 						w.w[0].DrainHandle().Drain()
 						drainedAt = w.now()
 						rec.resp = w.call(0, "open", 0, "alice", "", true)
